@@ -134,6 +134,33 @@ pub fn run<E: std::fmt::Display>(f: impl FnOnce() -> Result<Value, E>) -> Value 
     }
 }
 
+/// What the public accessors of a `serde_arrow::Error` say about it (API coverage: `Error::message`, `Display`, `Debug`,
+/// `std::error::Error::source`); `debug` is cut after the part that must repeat the Display text.
+pub fn error_accessors(e: &serde_arrow::Error) -> Value {
+    let display = e.to_string();
+    let debug: String = format!("{e:?}").chars().take(display.chars().count() + 12).collect();
+    let source = std::error::Error::source(e).map(|s| s.to_string());
+    json!({"message": e.message(), "display": display, "debug": debug, "source": source})
+}
+
+/// `run` for closures that fail with the crate's own error type: the error object additionally carries `acc`, the
+/// accessor view of the same error (checked for agreement with the parsed Display text by the drivers that use it)
+pub fn run_sa(f: impl FnOnce() -> Result<Value, serde_arrow::Error>) -> Value {
+    LAST_PANIC.with(|p| *p.borrow_mut() = None);
+    match catch_unwind(AssertUnwindSafe(f)) {
+        Ok(Ok(v)) => json!({ "ok": v }),
+        Ok(Err(e)) => {
+            let mut o = parse_error(&e.to_string());
+            o["acc"] = error_accessors(&e);
+            json!({ "err": o })
+        }
+        Err(_) => {
+            let msg = LAST_PANIC.with(|p| p.borrow_mut().take()).unwrap_or_default();
+            json!({ "panic": msg })
+        }
+    }
+}
+
 /// message of the panic caught last (for callers that use catch_unwind themselves)
 pub fn take_panic() -> String {
     LAST_PANIC.with(|p| p.borrow_mut().take()).unwrap_or_default()
